@@ -44,6 +44,37 @@ Theorem C06_bin_mean_block :
 Proof. exact bin_mean_block. Qed.
 Print Assumptions C06_bin_mean_block.
 
+(* N-D, several axes at once.  Dataset.bin is, by definition of the model,
+   bin_sum afs t = reduce_nd afs (take_nd afs t): cut every listed axis to its covered region,
+   then reduce the listed axes one after the other.  One reduction step replaces every block
+   along its axis by the block sum (any axis, any dimension) ... *)
+Theorem C06_bin_nd_definition :
+  forall (afs : list (nat * nat)) (t : tensor Qc),
+    bin_sum afs t = fold_left (fun acc af => reduce_at (fst af) (snd af) acc) afs
+                      (fold_left (fun acc af => take_at (fst af) (eff_len (len_of (fst af) (shape acc)) (snd af)) acc) afs t).
+Proof. exact (fun afs t => eq_refl). Qed.
+Print Assumptions C06_bin_nd_definition.
+
+Theorem C06_bin_nd_reduce_step :
+  forall (a f : nat) (t : tensor Qc) (o j k : nat),
+    a < length (shape t) ->
+    o < outer_of a (shape t) -> j < len_of a (shape t) / f -> k < inner_of a (shape t) ->
+    nth ((o * (len_of a (shape t) / f) + j) * inner_of a (shape t) + k) (data (reduce_at a f t)) 0%Qc
+    = FinSum.sumn 0%Qc Qcplus f
+        (fun u => nth ((o * ((len_of a (shape t) / f) * f) + (j * f + u)) * inner_of a (shape t) + k) (data t) 0%Qc).
+Proof. exact reduce_at_block_sum. Qed.
+Print Assumptions C06_bin_nd_reduce_step.
+
+(* ... and one cut step keeps exactly the entries with axis index below L *)
+Theorem C06_bin_nd_cut_step :
+  forall (A : Type) (a L : nat) (t : tensor A) (o i k : nat) (d : A),
+    wf t -> a < length (shape t) -> L <= len_of a (shape t) ->
+    o < outer_of a (shape t) -> i < L -> k < inner_of a (shape t) ->
+    nth ((o * L + i) * inner_of a (shape t) + k) (data (take_at a L t)) d
+    = nth ((o * len_of a (shape t) + i) * inner_of a (shape t) + k) (data t) d.
+Proof. exact @take_at_nth. Qed.
+Print Assumptions C06_bin_nd_cut_step.
+
 (* N-D, any set of distinct axes, any factors: the result has n / f entries on every binned
    axis and the other axes are untouched *)
 Theorem C06_bin_shape :
